@@ -157,6 +157,10 @@ func (m *MuxBroker) Run() {
 		select {
 		case p.ch <- stream:
 		default:
+			// A connection for this ID is already pending, so this one can
+			// never be accepted: close it rather than leave its dialer
+			// waiting for an ack forever.
+			stream.Close()
 		}
 
 		// Wait for a timeout
